@@ -37,6 +37,9 @@ namespace bxdecay0 {
 
   private:
 
+    /// Return the value that follows the option at position iarg_ (and advance), or throw if it is missing
+    const std::string & _next_token_(int & iarg_) const;
+
     std::vector<std::string> _args_;            ///< Command line arguments to be parsd
     parsing_context_type     _parsing_context_; ///< Parsing context 
     
